@@ -85,7 +85,8 @@ def dump(dt, names, kind, prefer_order=True):
 def keys_of(case):
     """the parameter keys of a case, in the order the parameters are listed"""
     if case["kind"] == "encs":
-        return [f"pipeline.charge_collection.m{j}.arguments.{arg}" for j, arg in case["layout"]]
+        return [("detector.environment.temperature" if arg == "T" else f"pipeline.charge_collection.m{j}.arguments.{arg}")
+                for j, arg in case["layout"]]
     return [K + f"p{k}" for k in range(len(case["params"]))]
 
 
@@ -131,7 +132,10 @@ def build(case, with_dask, out_dir=None):
             for k, (jj, arg) in enumerate(case["layout"]):
                 if jj == j:
                     d = (case.get("defaults") or [0] * n)[k]
-                    margs[arg] = [float(x) for x in d] if isinstance(d, list) else float(d)
+                    if arg == "T":
+                        det.environment.temperature = float(d)
+                    else:
+                        margs[arg] = [float(x) for x in d] if isinstance(d, list) else float(d)
             models.append(dict(func="verif_probes_c07.encs", name=f"m{j}", arguments=margs))
         pipe = pyx.make_pipeline({"charge_collection": models})
     else:
